@@ -91,6 +91,8 @@ def run_tlc(ws, module, cfg=None, *, workers=None, simulate=None, depth=None, se
             allow_violation=False):
     cfg = cfg or (module + '.cfg')
     cmd = ['java', '-Xss' + xss, '-XX:+UseParallelGC']
+    if workers and str(workers).isdigit() and int(workers) <= 4:
+        cmd.append('-XX:ParallelGCThreads=2')
     if heap:
         cmd.append('-Xmx' + heap)
     cmd += ['-cp', TLA_CP, 'tlc2.TLC', '-noGenerateSpecTE',
@@ -272,12 +274,22 @@ class Check:
             'violations': len(self.violations),
         }
         cov.pop('assumptions', None)
-        with open(os.path.join(EVIDENCE, self.pid + '.json'), 'w') as fh:
-            json.dump(ev, fh, indent=1, default=repr)
+        if not os.environ.get('VERIF_NO_EVIDENCE'):
+            with open(os.path.join(EVIDENCE, self.pid + '.json'), 'w') as fh:
+                json.dump(ev, fh, indent=1, default=repr)
         print('%s %s: states=%d transitions=%d traces=%d evaluations=%d nontrivial=%d violations=%d known=%d drift=%d wall=%.1fs'
               % (self.pid, self.tier, self.states, self.transitions, self.traces_validated, self.evaluations,
                  len(self.nontrivial), len(self.violations), len(self.known_hit), len(self.drifts), wall), flush=True)
         return 1 if self.violations else 0
+
+
+def parallel(jobs, max_workers=6):
+    """Run independent callables concurrently (each typically one TLC process); returns results in order.
+    A MachineryError in any job is re-raised."""
+    from concurrent.futures import ThreadPoolExecutor
+    with ThreadPoolExecutor(max_workers=max_workers) as ex:
+        futs = [ex.submit(j) for j in jobs]
+        return [f.result() for f in futs]
 
 
 def trace_report(r):
